@@ -1,11 +1,34 @@
+// hC19 — correspondence driver for property C19 (a finished asynchronous search equals the
+// synchronous one and survives restarts).
+//
+// For every generated world (corpus in 0..4 fractions, query, histogram, aggregations) the driver
+//  1. builds the fractions with the real append/seal path (controlled child process),
+//  2. runs the REAL fracmanager.AsyncSearcher (MustStartAsync, StartSearch, FetchSearchResult) in a
+//     child under crashfs (strace): every file operation of the persistence protocol is recorded,
+//     together with the synchronous Searcher.SearchDocs answer and the per-fraction partial results,
+//  3. rebuilds the directory at crash points of that run (after k operations; a write cut short;
+//     power loss dropping unsynced data), starts a fresh child on it (MustStartAsync resumes), waits
+//     for Done and fetches; optionally crashes the resumed run again (chain of crashes),
+//  4. writes the observations as Coq cases (props/C19/coq/CaseDefs.v).
 package main
 
 import (
 	"encoding/hex"
 	"encoding/json"
+	"flag"
 	"fmt"
 	"os"
+	"path/filepath"
+	"sort"
+	"strings"
+	"sync"
 
+	"github.com/ozontech/seq-db/seq"
+	"github.com/ozontech/seq-db/zstd"
+
+	"verif/harness/internal/casefile"
+	"verif/harness/internal/crashfs"
+	"verif/harness/internal/rng"
 	"verif/harness/internal/storectl"
 )
 
@@ -24,74 +47,981 @@ func call(st *storectl.Store, op string, e childReq) (childResp, error) {
 	return out, nil
 }
 
-func probe() {
-	root, _ := os.MkdirTemp("", "verif-c19-")
-	defer os.RemoveAll(root)
-	data := root + "/data"
-	os.MkdirAll(data, 0o755)
-	st, err := storectl.Start("")
-	if err != nil {
-		panic(err)
-	}
-	must := func(r storectl.Resp, err error) storectl.Resp {
-		if err != nil {
-			panic(err)
-		}
-		return r
-	}
-	h := func(s string) string { return hex.EncodeToString([]byte(s)) }
-	must(st.Call(storectl.Req{Op: "open", Dir: data}))
-	must(st.Call(storectl.Req{Op: "bulk", Docs: []storectl.Doc{
-		{MID: 1000, RID: 1, BodyHex: h(`{"a":"x"}`), Tokens: []string{"m:1", "g:a|b", "v:1.5"}},
-		{MID: 1007, RID: 2, BodyHex: h(`{"a":"x"}`), Tokens: []string{"m:1", "g:web", "v:-2"}}}}))
-	must(st.Call(storectl.Req{Op: "seal"}))
-	if _, err := call(st, "c19.bulk", childReq{Docs: []hexDoc{
-		{MID: 1000, RID: 1, Tokens: []string{h("m:1"), h("g:a|b"), h("v:1.5")}},
-		{MID: 2000, RID: 3, Tokens: []string{h("m:1"), h("g:\xff"), h("v:2e0")}},
-		{MID: 2001, RID: 4, Tokens: []string{h("m:1"), h("g:\xfe"), h("v:3")}}}}); err != nil {
-		panic(err)
-	}
-	fmt.Println(must(st.Call(storectl.Req{Op: "fracs"})).Fracs)
-	st.Close()
+// ---------------------------------------------------------------- worlds
 
-	spec := searchSpec{ID: "req1", Query: "m:1", Fields: []string{"m", "g", "v"}, From: 0, To: 1 << 40, Hist: 100, Limit: 1 << 30,
-		Aggs: []aggSpec{{Fn: 1, Field: "v", Group: "g"}}}
-	st, err = storectl.Start(root)
+type doc struct {
+	MID    uint64   `json:"mid"`
+	RID    uint64   `json:"rid"`
+	Tokens []string `json:"tokens"` // "field:value", hex when not printable
+}
+
+type world struct {
+	Idx     int        `json:"world"`
+	Fracs   [][]doc    `json:"fracs"`
+	Sealed  []bool     `json:"sealed"`
+	Spec    searchSpec `json:"spec"`
+	BadUTF8 bool       `json:"invalid_utf8_group"`
+	Dups    int        `json:"ids_in_two_fractions"`
+}
+
+var fields = []string{"m", "g", "h", "v"}
+
+// group values that stress the JSON key codec "mid|token"
+var groupVals = []string{"api", "web", "7", "a|b", "|", "0|1|2", "x y", "Ünï", "q\"uote", "back\\slash", "<&>", "", "tab\tx", " ", "日本"}
+var badVals = []string{"\xff", "\xfe", "ab\xffcd", "\xc3", "\xe2\x82"}
+
+const midBase = 1_000_000
+
+func exactValue(r *rng.R, k int64) string {
+	neg := k < 0
+	a := k
+	if neg {
+		a = -k
+	}
+	n := a * 625 // a/16 = n/10000
+	ip, fp := n/10000, n%10000
+	var s string
+	switch r.Intn(4) {
+	case 0, 1:
+		fs := strings.TrimRight(fmt.Sprintf("%04d", fp), "0")
+		if fs == "" {
+			s = fmt.Sprint(ip)
+		} else {
+			s = fmt.Sprintf("%d.%s", ip, fs)
+		}
+	case 2:
+		s = fmt.Sprintf("%de-4", n)
+	default:
+		s = fmt.Sprintf("%d.%04dE0", ip, fp)
+	}
+	if neg {
+		s = "-" + s
+	}
+	return s
+}
+
+func genWorld(seed uint64, idx int) *world {
+	r := rng.New(seed*1000003 + uint64(idx)*7919 + 19)
+	w := &world{Idx: idx}
+	wantBad := idx%8 == 5 // worlds of the known finding resume/invalid-utf8-group (kept apart from all others)
+	nf := r.Range(1, 4)
+	if idx%16 == 9 {
+		nf = 0 // the replica holds no matching fraction: the request is done at once
+	}
+	span := uint64(r.Range(1, 3000))
+	rid := uint64(r.Intn(1000))
+	var all []doc
+	for fi := 0; fi < nf; fi++ {
+		nd := r.Range(1, 7)
+		var ds []doc
+		for i := 0; i < nd; i++ {
+			if len(all) > 0 && fi > 0 && r.Chance(1, 4) {
+				// the same document stored in two fractions (replayed bulk)
+				d := rng.Pick(r, all)
+				dup := false
+				for _, x := range ds {
+					if x.MID == d.MID && x.RID == d.RID {
+						dup = true
+					}
+				}
+				if !dup {
+					ds = append(ds, d)
+					w.Dups++
+					continue
+				}
+			}
+			rid += uint64(r.Range(1, 9))
+			d := doc{MID: midBase + uint64(r.Intn(int(span)+1)), RID: rid}
+			if r.Chance(3, 4) {
+				d.Tokens = append(d.Tokens, "m:1")
+			} else {
+				d.Tokens = append(d.Tokens, "m:0")
+			}
+			if !r.Chance(1, 5) {
+				v := rng.Pick(r, groupVals)
+				if wantBad && r.Chance(1, 2) {
+					v = rng.Pick(r, badVals)
+					w.BadUTF8 = true
+				}
+				d.Tokens = append(d.Tokens, "g:"+v)
+			}
+			if !r.Chance(1, 4) {
+				d.Tokens = append(d.Tokens, "h:"+rng.Pick(r, groupVals[:5]))
+			}
+			if !r.Chance(1, 5) {
+				lim := int64(1) << uint(r.Range(3, 14))
+				d.Tokens = append(d.Tokens, "v:"+exactValue(r, int64(r.Intn(int(2*lim+1)))-lim))
+			}
+			ds = append(ds, d)
+		}
+		all = append(all, ds...)
+		w.Fracs = append(w.Fracs, ds)
+		w.Sealed = append(w.Sealed, fi < nf-1 || r.Bool())
+	}
+	s := searchSpec{ID: fmt.Sprintf("5f2c9a0e-%04d-4c19-8000-%012d", idx%10000, seed%1000000000000), Query: "m:1",
+		Fields: fields, From: 0, To: 1 << 40, Limit: 1<<31 - 1}
+	if r.Chance(1, 3) {
+		s.Query = "m:1 or m:0"
+	}
+	if r.Chance(1, 4) && nf > 0 {
+		a, b := midBase+uint64(r.Intn(int(span)+1)), midBase+uint64(r.Intn(int(span)+1))
+		if a > b {
+			a, b = b, a
+		}
+		s.From, s.To = a, b
+	}
+	s.Reverse = r.Bool()
+	if r.Chance(2, 3) {
+		s.Hist = uint64(rng.Pick(r, []int{1, 7, 100, 1000, 60000}))
+	}
+	if r.Chance(1, 5) {
+		s.Limit = r.Range(1, 6)
+	}
+	s.WithTotal = r.Chance(1, 3)
+	na := r.Range(0, 2)
+	for i := 0; i < na; i++ {
+		a := aggSpec{Interval: int64(rng.Pick(r, []int{0, 0, 7, 1000}))}
+		a.Fn = rng.Pick(r, []int{seq.AggFuncCount, seq.AggFuncSum, seq.AggFuncMin, seq.AggFuncMax, seq.AggFuncAvg,
+			seq.AggFuncQuantile, seq.AggFuncQuantile, seq.AggFuncUnique})
+		switch a.Fn {
+		case seq.AggFuncCount, seq.AggFuncUnique:
+			a.Group = rng.Pick(r, []string{"g", "h"})
+		default:
+			a.Field = "v"
+			if r.Chance(2, 3) {
+				a.Group = rng.Pick(r, []string{"g", "h"})
+			}
+			if a.Fn == seq.AggFuncQuantile {
+				a.Quants = [][]float64{{0.5}, {0.25, 0.99}, {0, 1}, {0.5, 0.75, 1}}[r.Intn(4)]
+			}
+		}
+		s.Aggs = append(s.Aggs, a)
+	}
+	if w.BadUTF8 {
+		s.Aggs = append(s.Aggs[:min(len(s.Aggs), 1)], aggSpec{Fn: seq.AggFuncCount, Group: "g"})
+	}
+	w.Spec = s
+	return w
+}
+
+func (w *world) jsonSafe() map[string]any {
+	// tokens as hex when they are not valid printable text, so that the replay file is byte-exact
+	fr := [][]map[string]any{}
+	for _, f := range w.Fracs {
+		var ds []map[string]any
+		for _, d := range f {
+			var ts []string
+			for _, t := range d.Tokens {
+				if b, _ := json.Marshal(t); strings.Contains(string(b), `�`) {
+					ts = append(ts, "hex:"+hex.EncodeToString([]byte(t)))
+				} else {
+					ts = append(ts, t)
+				}
+			}
+			ds = append(ds, map[string]any{"mid": d.MID, "rid": d.RID, "tokens": ts})
+		}
+		fr = append(fr, ds)
+	}
+	return map[string]any{"world": w.Idx, "fracs": fr, "sealed": w.Sealed, "spec": w.Spec,
+		"ids_in_two_fractions": w.Dups}
+}
+
+// ---------------------------------------------------------------- results
+
+type ccase struct {
+	term, class string
+	nontrivial  bool
+	input, impl any
+}
+type violation struct {
+	fp, what string
+	input    any
+}
+type result struct {
+	cases  []ccase
+	viols  []violation
+	counts []string
+}
+
+// ---------------------------------------------------------------- Coq rendering
+
+type binTable struct {
+	ids  map[string]int
+	list []string
+}
+
+func (t *binTable) id(b cBin) int {
+	k := fmt.Sprintf("%020d|%s", b.MID, b.TokHex)
+	if v, ok := t.ids[k]; ok {
+		return v
+	}
+	v := len(t.list)
+	t.ids[k] = v
+	t.list = append(t.list, k)
+	return v
+}
+
+func zc(s string) string { return "(" + s + ")%Z" }
+
+func (t *binTable) qprCoq(q *cQPR) string {
+	var sb strings.Builder
+	sb.WriteString("{| q_ids := [")
+	for i, id := range q.IDs {
+		if i > 0 {
+			sb.WriteString("; ")
+		}
+		fmt.Fprintf(&sb, "(%d, %d)", id[0], id[1])
+	}
+	sb.WriteString("]; q_hist := [")
+	for i, h := range q.Hist {
+		if i > 0 {
+			sb.WriteString("; ")
+		}
+		fmt.Fprintf(&sb, "(%d, %d)", h[0], h[1])
+	}
+	sb.WriteString("]; q_aggs := [")
+	for i, a := range q.Aggs {
+		if i > 0 {
+			sb.WriteString("; ")
+		}
+		type kb struct {
+			k int
+			b cBin
+		}
+		var bs []kb
+		for _, b := range a.Bins {
+			bs = append(bs, kb{t.id(b), b})
+		}
+		sort.Slice(bs, func(i, j int) bool { return bs[i].k < bs[j].k })
+		fmt.Fprintf(&sb, "(%s, [", zc(fmt.Sprint(a.NE)))
+		for j, x := range bs {
+			if j > 0 {
+				sb.WriteString("; ")
+			}
+			b := x.b
+			if b.Min == "nil" {
+				b.Min, b.Max, b.Sum = "1", "-1", "777" // a nil container never equals a real one
+			}
+			var ss []string
+			for _, s := range b.Samples {
+				ss = append(ss, zc(s))
+			}
+			fmt.Fprintf(&sb, "(%d, {| sc_min := %s; sc_max := %s; sc_sum := %s; sc_total := %s; sc_ne := %s; sc_samples := [%s] |})",
+				x.k, zc(b.Min), zc(b.Max), zc(b.Sum), zc(fmt.Sprint(b.Total)), zc(fmt.Sprint(b.NE)), strings.Join(ss, "; "))
+		}
+		sb.WriteString("])")
+	}
+	fmt.Fprintf(&sb, "]; q_total := %d |}", q.Total)
+	return sb.String()
+}
+
+// ---------------------------------------------------------------- projection of files and operations
+
+type proj struct {
+	id    string
+	names []string       // fraction names in start-time order
+	rank  map[string]int // fraction name -> number (rank of the name = Glob order)
+	per   map[string]string
+	spec  searchSpec
+}
+
+// fname: Coq term of the file name, or "" for a file the protocol does not know
+func (p *proj) fname(base string) string {
+	if base == p.id+".info" {
+		return "FInfo"
+	}
+	if base == p.id+".info.tmp" {
+		return "FInfoTmp"
+	}
+	rest, ok := strings.CutPrefix(base, p.id+".")
+	if !ok {
+		return ""
+	}
+	if n, ok := strings.CutSuffix(rest, ".qpr"); ok {
+		if k, ok := p.rank[n]; ok {
+			return fmt.Sprintf("(FQpr %d)", k)
+		}
+	}
+	if n, ok := strings.CutSuffix(rest, ".qpr.tmp"); ok {
+		if k, ok := p.rank[n]; ok {
+			return fmt.Sprintf("(FQprTmp %d)", k)
+		}
+	}
+	return ""
+}
+
+func fkey(fn string) int {
+	switch {
+	case fn == "FInfo":
+		return 0
+	case fn == "FInfoTmp":
+		return 1
+	}
+	var k int
+	if _, err := fmt.Sscanf(fn, "(FQpr %d)", &k); err == nil {
+		return 2 + 2*k
+	}
+	fmt.Sscanf(fn, "(FQprTmp %d)", &k)
+	return 3 + 2*k
+}
+
+type infoFile struct {
+	Done    bool
+	Request struct {
+		ID     string
+		Query  string
+		Params struct {
+			AggQ         json.RawMessage
+			HistInterval uint64
+			From, To     uint64
+			Limit        int
+			WithTotal    bool
+			Order        int
+		}
+	}
+	Fractions []struct{ Name string }
+}
+
+// content classifies the bytes of a file: the complete request state, the complete partial result of
+// the fraction the name says, or CTorn
+func (p *proj) content(fn string, data []byte) (res string) {
+	defer func() {
+		if recover() != nil {
+			res = "CTorn"
+		}
+	}()
+	if strings.HasPrefix(fn, "FInfo") {
+		var inf infoFile
+		if err := json.Unmarshal(data, &inf); err != nil {
+			return "CTorn"
+		}
+		ok := inf.Request.ID == p.id && inf.Request.Query == p.spec.Query && len(inf.Fractions) == len(p.names) &&
+			inf.Request.Params.HistInterval == p.spec.Hist && inf.Request.Params.From == p.spec.From &&
+			inf.Request.Params.To == p.spec.To && inf.Request.Params.Limit == p.spec.Limit &&
+			inf.Request.Params.WithTotal == p.spec.WithTotal && (inf.Request.Params.Order == 1) == p.spec.Reverse
+		for i := range inf.Fractions {
+			ok = ok && i < len(p.names) && inf.Fractions[i].Name == p.names[i]
+		}
+		want, _ := json.Marshal(p.spec.aggQ())
+		if len(p.spec.Aggs) == 0 {
+			want = []byte("null")
+		}
+		ok = ok && string(inf.Request.Params.AggQ) == string(want)
+		if !ok {
+			return "CTorn"
+		}
+		return "(CInfo " + casefile.Bool(inf.Done) + ")"
+	}
+	var k int
+	if _, err := fmt.Sscanf(fn, "(FQpr %d)", &k); err != nil {
+		fmt.Sscanf(fn, "(FQprTmp %d)", &k)
+	}
+	raw, err := zstd.Decompress(data, nil)
 	if err != nil {
-		panic(err)
+		return "CTorn"
 	}
-	must(st.Call(storectl.Req{Op: "open", Dir: data}))
+	var q seq.QPR
+	if err := json.Unmarshal(raw, &q); err != nil {
+		return "CTorn"
+	}
+	b, _ := json.Marshal(canonQPR(&q))
+	for name, r := range p.rank {
+		if r == k && p.per[name] == string(b) {
+			return fmt.Sprintf("(CQpr %d)", k)
+		}
+	}
+	return "CTorn"
+}
+
+// listing renders the async directory as a Coq `dir` (sorted by key); unknown holds unexpected names
+func (p *proj) listing(files map[string][]byte) (coq string, names []string, unknown []string) {
+	type ent struct {
+		k int
+		s string
+	}
+	var es []ent
+	for n, data := range files {
+		names = append(names, n)
+		fn := p.fname(n)
+		if fn == "" {
+			unknown = append(unknown, n)
+			continue
+		}
+		es = append(es, ent{fkey(fn), p.content(fn, data)})
+	}
+	sort.Strings(names)
+	sort.Slice(es, func(i, j int) bool { return es[i].k < es[j].k })
+	var parts []string
+	for _, e := range es {
+		parts = append(parts, fmt.Sprintf("(%d, %s)", e.k, e.s))
+	}
+	return "[" + strings.Join(parts, "; ") + "]", names, unknown
+}
+
+type pop struct {
+	coq   string
+	text  string
+	raw   int // index in the raw trace of the (last) system call of this operation
+	first int // index of its first system call
+	write bool
+}
+
+// ops projects the raw trace onto the operations below async/ ; marks = raw indices of the answers
+func (p *proj) ops(tr *crashfs.Trace) (out []pop, marks []int, bad []string) {
+	const pre = "async/"
+	for i, o := range tr.Ops {
+		if o.Kind == crashfs.Mark {
+			marks = append(marks, i)
+			continue
+		}
+		if o.Kind == crashfs.Mkdir && o.Path == "async" {
+			out = append(out, pop{coq: "OMkdir", text: "mkdir async", raw: i, first: i})
+			continue
+		}
+		if o.Kind == crashfs.FsyncDir && o.Path == "async" {
+			out = append(out, pop{coq: "OFsyncDir", text: "fsyncdir async", raw: i, first: i})
+			continue
+		}
+		if !strings.HasPrefix(o.Path, pre) {
+			continue
+		}
+		fn := p.fname(o.Path[len(pre):])
+		if fn == "" {
+			bad = append(bad, o.String())
+			continue
+		}
+		switch o.Kind {
+		case crashfs.Create:
+			out = append(out, pop{coq: "OCreate " + fn, text: o.String(), raw: i, first: i})
+		case crashfs.Write:
+			// consecutive writes to one file form one logical write (content = the file afterwards)
+			if n := len(out); n > 0 && out[n-1].write && strings.HasPrefix(out[n-1].coq, "OWrite "+fn+" ") {
+				out = out[:n-1]
+			}
+			first := i
+			st := tr.StateAt(i + 1)
+			data := st.Files()[o.Path]
+			out = append(out, pop{coq: "OWrite " + fn + " " + p.content(fn, data), text: o.String(), raw: i, first: first, write: true})
+		case crashfs.Fsync:
+			out = append(out, pop{coq: "OFsync " + fn, text: o.String(), raw: i, first: i})
+		case crashfs.Rename:
+			fn2 := p.fname(strings.TrimPrefix(o.Path2, pre))
+			if fn2 == "" {
+				bad = append(bad, o.String())
+				continue
+			}
+			out = append(out, pop{coq: "ORename " + fn + " " + fn2, text: o.String(), raw: i, first: i})
+		default:
+			bad = append(bad, o.String())
+		}
+	}
+	return
+}
+
+func opsCoq(ops []pop) string {
+	parts := make([]string, len(ops))
+	for i, o := range ops {
+		parts[i] = o.coq
+	}
+	return "[" + strings.Join(parts, "; ") + "]"
+}
+func opsText(ops []pop) []string {
+	parts := make([]string, len(ops))
+	for i, o := range ops {
+		parts[i] = o.text
+	}
+	return parts
+}
+
+func asyncFiles(st *crashfs.State) map[string][]byte {
+	out := map[string][]byte{}
+	for n, b := range st.Files() {
+		if rest, ok := strings.CutPrefix(n, "async/"); ok {
+			out[rest] = b
+		}
+	}
+	return out
+}
+
+func readAsyncDir(dir string) map[string][]byte {
+	out := map[string][]byte{}
+	ents, _ := os.ReadDir(dir)
+	for _, e := range ents {
+		b, err := os.ReadFile(filepath.Join(dir, e.Name()))
+		if err == nil {
+			out[e.Name()] = b
+		}
+	}
+	return out
+}
+
+// ---------------------------------------------------------------- one world
+
+type crashPoint struct {
+	K       int `json:"k"`
+	Variant int `json:"variant"` // 0 after k operations; 1 the k-th operation (a write) cut short; 2 power loss after k
+	Cut     int `json:"cut,omitempty"`
+}
+
+// crashState builds the directory state for a crash of the run tr (projected ops) at cp
+func crashState(tr *crashfs.Trace, ops []pop, cp crashPoint) *crashfs.State {
+	rawAfter := func(k int) int { // number of raw operations to apply so that exactly k projected ones are complete
+		if k == 0 {
+			if len(ops) > 0 {
+				return ops[0].first
+			}
+			return len(tr.Ops)
+		}
+		return ops[k-1].raw + 1
+	}
+	switch cp.Variant {
+	case 1:
+		o := ops[cp.K]
+		st := tr.StateAt(o.raw)
+		st.ApplyTorn(tr.Ops[o.raw], cp.Cut)
+		return st
+	case 2:
+		st := tr.StateAt(rawAfter(cp.K))
+		st.PowerLoss(func(path string, synced, length int) int { return synced })
+		return st
+	}
+	return tr.StateAt(rawAfter(cp.K))
+}
+
+type runObs struct {
+	tr    *crashfs.Trace
+	ops   []pop
+	marks []int
+	fetch childResp
+	sync  childResp
+	per   childResp
+	final map[string][]byte
+}
+
+// runChild starts a traced child on root (data in root/data, requests in root/async), lets
+// MustStartAsync resume whatever is there, optionally starts the search, waits for Done and fetches.
+func runChild(root string, spec searchSpec, fresh bool) (*runObs, error) {
+	st, err := storectl.Start(root)
+	if err != nil {
+		return nil, fmt.Errorf("harness: %w", err)
+	}
+	st.Timeout = 60e9
+	closed := false
+	defer func() {
+		if !closed {
+			st.Kill()
+			st.Close()
+		}
+	}()
+	if _, err := st.Call(storectl.Req{Op: "open", Dir: root + "/data"}); err != nil {
+		return nil, fmt.Errorf("open: %w", err)
+	}
 	if _, err := call(st, "c19.start", childReq{AsyncDir: root + "/async", Parallelism: 1, Spec: spec}); err != nil {
-		panic(err)
+		return nil, fmt.Errorf("start: %w", err)
 	}
-	if _, err := call(st, "c19.search", childReq{Spec: spec}); err != nil {
-		panic(err)
+	o := &runObs{}
+	if fresh {
+		if _, err := call(st, "c19.search", childReq{Spec: spec}); err != nil {
+			return nil, fmt.Errorf("search: %w", err)
+		}
 	}
-	r, err := call(st, "c19.fetch", childReq{Spec: spec, Wait: true, TimeoutMs: 20000})
-	fmt.Println("fetch:", err)
-	b, _ := json.Marshal(r)
-	fmt.Println(string(b))
-	r, err = call(st, "c19.sync", childReq{Spec: spec})
-	b, _ = json.Marshal(r)
-	fmt.Println("sync:", err, string(b))
-	r, err = call(st, "c19.perfrac", childReq{Spec: spec})
-	b, _ = json.Marshal(r)
-	fmt.Println("perfrac:", err, string(b))
+	if o.fetch, err = call(st, "c19.fetch", childReq{Spec: spec, Wait: true, TimeoutMs: 20000}); err != nil {
+		return nil, fmt.Errorf("fetch: %w", err)
+	}
+	if fresh {
+		if o.sync, err = call(st, "c19.sync", childReq{Spec: spec}); err != nil {
+			return nil, fmt.Errorf("sync: %w", err)
+		}
+		if o.per, err = call(st, "c19.perfrac", childReq{Spec: spec}); err != nil {
+			return nil, fmt.Errorf("perfrac: %w", err)
+		}
+	}
+	closed = true
 	tr, err := st.Close()
 	if err != nil {
+		return nil, fmt.Errorf("harness: trace: %w", err)
+	}
+	if err := tr.Verify(); err != nil {
+		return nil, fmt.Errorf("harness: %w", err)
+	}
+	o.tr = tr
+	o.final = readAsyncDir(root + "/async")
+	return o, nil
+}
+
+func buildCorpus(root string, w *world) error {
+	st, err := storectl.Start("")
+	if err != nil {
+		return err
+	}
+	defer st.Close()
+	if _, err := st.Call(storectl.Req{Op: "open", Dir: root + "/data"}); err != nil {
+		return err
+	}
+	for fi, f := range w.Fracs {
+		var ds []hexDoc
+		for _, d := range f {
+			hd := hexDoc{MID: d.MID, RID: d.RID}
+			for _, t := range d.Tokens {
+				hd.Tokens = append(hd.Tokens, hex.EncodeToString([]byte(t)))
+			}
+			ds = append(ds, hd)
+		}
+		if _, err := call(st, "c19.bulk", childReq{Docs: ds}); err != nil {
+			return err
+		}
+		if w.Sealed[fi] {
+			if _, err := st.Call(storectl.Req{Op: "seal"}); err != nil {
+				return err
+			}
+		}
+	}
+	return nil
+}
+
+func died(err error) bool { return err != nil && !strings.HasPrefix(err.Error(), "harness:") }
+
+func runWorld(seed uint64, idx int, tier string, only [][]crashPoint) (res *result) {
+	res = &result{}
+	w := genWorld(seed, idx)
+	r := rng.New(seed*7777777 + uint64(idx)*104729 + 3)
+	base := func() map[string]any {
+		m := w.jsonSafe()
+		m["seed"] = seed
+		return m
+	}
+	// every observation of a world whose group-by tokens hold invalid UTF-8 is reported under the one
+	// fingerprint of the known finding
+	class, runClass, twiceClass := "resume", "run", "resume-twice"
+	vfp := func(kind string) string { return kind + ":" + class }
+	if w.BadUTF8 {
+		class, runClass, twiceClass = "resume/invalid-utf8-group", "resume/invalid-utf8-group", "resume/invalid-utf8-group"
+		vfp = func(string) string { return class }
+	}
+	defer func() {
+		if p := recover(); p != nil {
+			res.viols = append(res.viols, violation{"harness-error", fmt.Sprintf("hC19 internal error: %v", p), base()})
+		}
+	}()
+	top, err := os.MkdirTemp("", "verif-c19-")
+	if err != nil {
 		panic(err)
 	}
-	fmt.Println("verify:", tr.Verify())
-	for i, o := range tr.Ops {
-		fmt.Println(i, o)
+	defer os.RemoveAll(top)
+	root := top + "/r0"
+	os.MkdirAll(root+"/data", 0o755)
+	if err := buildCorpus(root, w); err != nil {
+		panic(fmt.Sprintf("corpus: %v", err))
 	}
+	run0, err := runChild(root, w.Spec, true)
+	if err != nil {
+		if died(err) {
+			res.viols = append(res.viols, violation{vfp("died-run"), "the store process failed during an asynchronous search: " + err.Error(), base()})
+			return
+		}
+		panic(err)
+	}
+	// fraction numbering
+	p := &proj{id: w.Spec.ID, rank: map[string]int{}, per: map[string]string{}, spec: w.Spec}
+	var sorted []string
+	for _, f := range run0.per.PerFrac {
+		p.names = append(p.names, f.Name)
+		sorted = append(sorted, f.Name)
+		b, _ := json.Marshal(f.QPR)
+		p.per[f.Name] = string(b)
+	}
+	sort.Strings(sorted)
+	for i, n := range sorted {
+		p.rank[n] = i
+	}
+	bt := &binTable{ids: map[string]int{}}
+	// world term
+	var fs []int
+	for _, n := range p.names {
+		fs = append(fs, p.rank[n])
+	}
+	var per []string
+	for _, n := range sorted {
+		for i := range run0.per.PerFrac {
+			if run0.per.PerFrac[i].Name == n {
+				per = append(per, fmt.Sprintf("(%d, %s)", p.rank[n], bt.qprCoq(&run0.per.PerFrac[i].QPR)))
+			}
+		}
+	}
+	wterm := fmt.Sprintf("{| w_fs := %s; w_hi := %d; w_rev := %s; w_limit := %d; w_naggs := %d%%nat; w_per := [%s]; w_sync := %s |}",
+		casefile.NList(fs), w.Spec.Hist, casefile.Bool(w.Spec.Reverse), w.Spec.Limit, len(w.Spec.Aggs),
+		strings.Join(per, "; "), bt.qprCoq(run0.sync.QPR))
+	nontriv := len(p.names) >= 2 && (w.Spec.Hist > 0 || len(w.Spec.Aggs) > 0)
+	res.counts = append(res.counts, fmt.Sprintf("fractions:%d", len(p.names)))
+	if w.Dups > 0 {
+		res.counts = append(res.counts, "world:id-in-two-fractions")
+	}
+	if w.Spec.Hist > 0 {
+		res.counts = append(res.counts, "world:histogram")
+	}
+	if len(w.Spec.Aggs) > 0 {
+		res.counts = append(res.counts, "world:aggregations")
+	}
+	if w.Spec.Limit < 100 {
+		res.counts = append(res.counts, "world:small-limit")
+	}
+
+	ops0, marks0, bad0 := p.ops(run0.tr)
+	for _, b := range bad0 {
+		res.viols = append(res.viols, violation{vfp("unexpected-op"), "operation outside the persistence protocol in the async-search directory: " + b, base()})
+	}
+	// number of projected operations completed when StartSearch was acknowledged (3rd answer: open, start, search)
+	acked := 0
+	if len(marks0) >= 3 {
+		for _, o := range ops0 {
+			if o.raw < marks0[2] {
+				acked++
+			}
+		}
+	}
+	qz := &cQPR{}
+	resOf := func(f childResp) *cQPR {
+		if f.QPR == nil {
+			return qz
+		}
+		return f.QPR
+	}
+	if only == nil {
+		in := base()
+		in["kind"] = "run"
+		res.cases = append(res.cases, ccase{
+			term: fmt.Sprintf("CRun %s %s %d%%nat %s %s %s %s", wterm, opsCoq(ops0), acked, casefile.Bool(run0.fetch.Found),
+				casefile.Bool(run0.fetch.Done), casefile.Bool(run0.fetch.ReqOK), bt.qprCoq(resOf(run0.fetch))),
+			class: runClass, nontrivial: nontriv, input: in,
+			impl: map[string]any{"ops": opsText(ops0), "acked_after": acked, "async": run0.fetch.QPR, "sync": run0.sync.QPR, "files": run0.fetch.Files}})
+	}
+
+	// crash points of the first run
+	var points []crashPoint
+	for k := 0; k <= len(ops0); k++ {
+		points = append(points, crashPoint{K: k})
+		if k < len(ops0) && ops0[k].write {
+			n := len(run0.tr.Ops[ops0[k].raw].Data)
+			if n > 0 {
+				points = append(points, crashPoint{K: k, Variant: 1, Cut: r.Intn(n)})
+			}
+		}
+		if k > 0 && ops0[k-1].write {
+			points = append(points, crashPoint{K: k, Variant: 2})
+		}
+	}
+	budget := 10
+	if tier == "thorough" {
+		budget = 1000
+	}
+	var chains [][]crashPoint
+	if only != nil {
+		chains = only
+	} else {
+		if len(points) > budget {
+			rng.Shuffle(r, points)
+			points = points[:budget]
+			sort.Slice(points, func(i, j int) bool {
+				if points[i].K != points[j].K {
+					return points[i].K < points[j].K
+				}
+				return points[i].Variant < points[j].Variant
+			})
+		}
+		for _, cp := range points {
+			chains = append(chains, []crashPoint{cp})
+		}
+	}
+	nsecond := 2
+	if tier == "thorough" {
+		nsecond = 6
+	}
+	for ci := 0; ci < len(chains); ci++ {
+		chain := chains[ci]
+		// replay the chain: first crash on run0, every further crash on the resumed run
+		tr, ops := run0.tr, ops0
+		var dir string
+		var st *crashfs.State
+		var obs *runObs
+		okChain := true
+		for li, cp := range chain {
+			if cp.K > len(ops) || (cp.Variant == 1 && (cp.K >= len(ops) || !ops[cp.K].write)) {
+				okChain = false
+				break
+			}
+			st = crashState(tr, ops, cp)
+			dir = fmt.Sprintf("%s/c%d_%d", top, ci, li)
+			if err := st.Materialize(dir); err != nil {
+				panic(err)
+			}
+			os.MkdirAll(dir+"/data", 0o755)
+			obs, err = runChild(dir, w.Spec, false)
+			if err != nil {
+				break
+			}
+			tr = obs.tr
+			var bad []string
+			ops, _, bad = p.ops(tr)
+			for _, b := range bad {
+				res.viols = append(res.viols, violation{vfp("unexpected-op"), "operation outside the persistence protocol in the async-search directory: " + b, base()})
+			}
+		}
+		if !okChain {
+			continue
+		}
+		in := base()
+		in["kind"] = "crash"
+		in["chain"] = chain
+		if err != nil {
+			if died(err) {
+				res.viols = append(res.viols, violation{vfp("died-restart"), "the store process failed when restarted on a crash state of an asynchronous search: " + err.Error(), in})
+				continue
+			}
+			panic(err)
+		}
+		obsCoq, obsNames, unknown := p.listing(asyncFiles(st))
+		finCoq, finNames, unknown2 := p.listing(obs.final)
+		for _, u := range append(unknown, unknown2...) {
+			res.viols = append(res.viols, violation{vfp("unexpected-file"), "file outside the persistence protocol in the async-search directory: " + u, in})
+		}
+		var cc []string
+		for _, cp := range chain {
+			cc = append(cc, fmt.Sprintf("(%d%%nat, %d)", cp.K, cp.Variant))
+		}
+		first := chain[0]
+		ack := first.K >= acked && !(first.Variant == 1 && first.K < acked)
+		cl := class
+		if len(chain) > 1 {
+			cl = twiceClass
+		}
+		res.cases = append(res.cases, ccase{
+			term: fmt.Sprintf("CCrash %s [%s] %s %s %s %s %s %s %s %s", wterm, strings.Join(cc, "; "), casefile.Bool(ack), obsCoq,
+				opsCoq(ops), finCoq, casefile.Bool(obs.fetch.Found), casefile.Bool(obs.fetch.Done), casefile.Bool(obs.fetch.ReqOK),
+				bt.qprCoq(resOf(obs.fetch))),
+			class: cl, nontrivial: nontriv && strings.Contains(obsCoq, "CInfo false"), input: in,
+			impl: map[string]any{"crash_dir": obsNames, "crash_dir_classified": obsCoq, "resume_ops": opsText(ops), "final_dir": finNames,
+				"found": obs.fetch.Found, "done": obs.fetch.Done, "async": obs.fetch.QPR, "sync": run0.sync.QPR}})
+		res.counts = append(res.counts, fmt.Sprintf("crash-variant:%d", chain[len(chain)-1].Variant))
+		if strings.Contains(obsCoq, "CQpr") && strings.Contains(obsCoq, "CInfo false") {
+			res.counts = append(res.counts, "crash:partial-results-persisted")
+		}
+		// a second crash inside the resumed run
+		if only == nil && len(chain) == 1 && len(ops) > 0 && nsecond > 0 && r.Chance(1, 2) {
+			nsecond--
+			cp2 := crashPoint{K: r.Intn(len(ops) + 1)}
+			if cp2.K < len(ops) && ops[cp2.K].write && r.Bool() {
+				if n := len(obs.tr.Ops[ops[cp2.K].raw].Data); n > 0 {
+					cp2.Variant, cp2.Cut = 1, r.Intn(n)
+				}
+			} else if cp2.K > 0 && ops[cp2.K-1].write {
+				cp2.Variant = 2
+			}
+			chains = append(chains, []crashPoint{chain[0], cp2})
+		}
+		os.RemoveAll(dir)
+	}
+	return res
 }
 
 func main() {
 	registerChildOps()
 	storectl.MaybeChild()
-	if len(os.Args) > 1 && os.Args[1] == "-probe" {
-		probe()
+	seed := flag.Uint64("seed", 1, "")
+	tier := flag.String("tier", "quick", "")
+	out := flag.String("out", "", "")
+	replay := flag.String("replay", "", "")
+	flag.Parse()
+	if *out == "" {
+		fmt.Fprintln(os.Stderr, "need -out")
+		os.Exit(2)
+	}
+	cw, err := casefile.New(*out, "C19", "From Coq Require Import ZArith List.\nFrom VLib Require Import CaseLib.\nFrom C19 Require Import Model CaseDefs.\nImport ListNotations.\nOpen Scope N_scope.", 60)
+	if err != nil {
+		panic(err)
+	}
+	flush := func(res *result) {
+		for _, c := range res.cases {
+			cw.Add(c.term, c.class, c.nontrivial, c.input, c.impl)
+		}
+		for _, v := range res.viols {
+			cw.Violate(v.fp, v.what, v.input)
+		}
+		for _, k := range res.counts {
+			cw.Count(k)
+		}
+	}
+	if *replay != "" {
+		doReplay(*replay, flush)
+		if err := cw.Close(); err != nil {
+			panic(err)
+		}
 		return
 	}
+	nworlds := 16
+	if *tier == "thorough" {
+		nworlds = 96
+	}
+	results := make([]*result, nworlds)
+	var wg sync.WaitGroup
+	sem := make(chan struct{}, 6)
+	for i := 0; i < nworlds; i++ {
+		wg.Add(1)
+		sem <- struct{}{}
+		go func(i int) {
+			defer wg.Done()
+			defer func() { <-sem }()
+			results[i] = runWorld(*seed, i, *tier, nil)
+		}(i)
+	}
+	wg.Wait()
+	for _, res := range results {
+		flush(res)
+	}
+	if err := cw.Close(); err != nil {
+		panic(err)
+	}
+}
+
+// replay: regenerate the world of the stored case from (seed, world) and re-run its crash chain only
+func doReplay(path string, flush func(*result)) {
+	b, err := os.ReadFile(path)
+	if err != nil {
+		panic(err)
+	}
+	var rp struct {
+		Seed   uint64 `json:"seed"`
+		Tier   string `json:"tier"`
+		Replay struct {
+			Case struct {
+				Input map[string]json.RawMessage `json:"input"`
+			} `json:"case"`
+			Input map[string]json.RawMessage `json:"input"`
+		} `json:"replay"`
+	}
+	if err := json.Unmarshal(b, &rp); err != nil {
+		panic(err)
+	}
+	in := rp.Replay.Case.Input
+	if in == nil {
+		in = rp.Replay.Input
+	}
+	seed, wi := rp.Seed, 0
+	json.Unmarshal(in["seed"], &seed)
+	json.Unmarshal(in["world"], &wi)
+	var chain []crashPoint
+	json.Unmarshal(in["chain"], &chain)
+	var only [][]crashPoint
+	if len(chain) > 0 {
+		only = [][]crashPoint{chain}
+	}
+	res := runWorld(seed, wi, rp.Tier, only)
+	fmt.Printf("replay seed=%d world=%d chain=%v: %d cases, %d direct violations\n", seed, wi, chain, len(res.cases), len(res.viols))
+	for _, c := range res.cases {
+		j, _ := json.Marshal(c.impl)
+		fmt.Printf("  %s: %s\n", c.class, j)
+	}
+	for _, v := range res.viols {
+		fmt.Printf("  VIOLATION %s: %s\n", v.fp, v.what)
+	}
+	flush(res)
 }
